@@ -26,6 +26,8 @@ MapShape(t, keys, i, valAddr) ==
          /\ (keys[i] = "addr" => Is20Bytes(t.sub[1]))
          /\ MapShape(t.sub[2], keys, i + 1, valAddr)
 
+FieldOK(v, i, here) == \E e \in here : e.offset = v.fields[i][1] /\ Width(e.type) = v.fields[i][2]
+
 Expected(v, entries) ==
     LET here == At(entries, Slot(v)) IN
     /\ here # {}
@@ -34,8 +36,16 @@ Expected(v, entries) ==
          [] v.kind = "map"  -> \E e \in here : e.offset = 0 /\ MapShape(e.type, v.keys, 1, v.val_addr)
          [] v.kind = "dyn"  -> \E e \in here : e.offset = 0 /\ e.type.k = "dyn_array"
                                               /\ (v.val_addr => Is20Bytes(e.type.sub[1]))
-         [] v.kind = "packed" ->
-                \A i \in 1..Len(v.fields) :
-                    \E e \in here : e.offset = v.fields[i][1] /\ Width(e.type) = v.fields[i][2]
+         [] v.kind = "packed" -> \A i \in 1..Len(v.fields) : FieldOK(v, i, here)
          [] OTHER -> FALSE
+
+(* the fields of a packed variable the layout does not describe *)
+MissingFields(v, entries) == {i \in 1..Len(v.fields) : ~FieldOK(v, i, At(entries, Slot(v)))}
+
+(* field i of packed variable v is only ever written, and moved into place by a left shift (not by a        *)
+(* multiplication with a power of two): the one way of writing a field the tool is known not to understand  *)
+(* on its own (known_findings.json, C04-packed-write-only)                                                    *)
+WriteOnlyShifted(v, i) ==
+    /\ v.kind = "packed" /\ ~v.wmul /\ v.fields[i][1] > 0
+    /\ (v.access = "w" \/ (v.top_w /\ Len(v.fields) > 1 /\ i = Len(v.fields)))
 ===============================================================================
